@@ -372,6 +372,8 @@ class ResolverMixin:  # pylint: disable=too-few-public-methods
                                         "in class {3!A}. Not overridable ",
                                         obj_type, obj_name, inh_qname,
                                         new_class.classname))
+                        self._init_qualifier(new_quals[inh_qname],
+                                             qualifier_store)
                         new_quals[inh_qname].propagated = True
 
                     else:  # not in new class, add it
